@@ -511,6 +511,10 @@ func checkJSONOkUse(c *core.Ctx) {
 					if rv := o.Field(v, "record"); rv != nil && rv.Canon() == "RECORD" {
 						recSet = true
 					}
+					// … or the record itself, returned beside the error
+					if v != nil && v.Canon() == "RECORD" {
+						recSet = true
+					}
 				}
 			}
 			if mismatch {
